@@ -168,6 +168,12 @@ def r1_random_sources(ctx: Context) -> None:
                 n_sites += 1
                 sa = _seed_arg(c)
                 key = f"{qualname(c)}|`{norm(c)[:50]}`"
+                if sa is not None and isinstance(sa, ast.Call) and call_name(sa) == "getattr" and len(sa.args) == 3 \
+                        and isinstance(sa.args[2], ast.Constant) and sa.args[2].value is None:
+                    ctx.violation("C09.R1", key, loc(c), f"`{norm(c)[:70]}` seeds the generator with `{norm(sa)[:50]}`, which is None (OS entropy) "
+                                  "whenever the attribute does not exist yet, e.g. when the first instance is created at import time "
+                                  "before the flag is defined")
+                    continue
                 if sa is not None and not (isinstance(sa, ast.Constant) and sa.value is None):
                     ctx.ok("C09.R1", key, loc(c), f"seeded with `{norm(sa)[:40]}`")
                     continue
@@ -309,8 +315,14 @@ def _seed_expr_ok(site: ast.AST, e: ast.AST, depth: int = 0) -> bool:
     if isinstance(e, ast.Constant):
         return isinstance(e.value, int) and not isinstance(e.value, bool)
     if isinstance(e, ast.IfExp):
-        # `None if <no seed> else <expr>`: the branch taken when a seed exists must be fine
+        # `None if <no seed> else <expr>`: the branch taken when a seed exists must be fine, and "no seed" must be a test
+        # for None: a truthiness test also sends the legal seed 0 to the unseeded branch
         branches = [b for b in (e.body, e.orelse) if not (isinstance(b, ast.Constant) and b.value is None)]
+        has_none = len(branches) < 2
+        t_ok = isinstance(e.test, ast.Compare) and len(e.test.ops) == 1 and isinstance(e.test.ops[0], (ast.Is, ast.IsNot)) \
+            and isinstance(e.test.comparators[0], ast.Constant) and e.test.comparators[0].value is None
+        if has_none and not t_ok:
+            return False
         return bool(branches) and all(_seed_expr_ok(site, b, depth + 1) for b in branches)
     if isinstance(e, ast.BinOp) and isinstance(e.op, (ast.Add, ast.Sub, ast.Mult, ast.BitXor, ast.Mod)):
         return _seed_expr_ok(site, e.left, depth + 1) or _seed_expr_ok(site, e.right, depth + 1)
